@@ -7,8 +7,11 @@ import copy
 import itertools
 
 
-def build(spec):
-    from pyiga import vform
+def build(spec, vform=None, add=True):
+    """build the VForm of a spec with the given vform module (default: the installed pyiga.vform); with add=False return
+    (V, expression) without adding it"""
+    if vform is None:
+        from pyiga import vform
     dim = spec['dim']
     geo_dim = dim + 1 if spec.get('surface') else dim
     V = vform.VForm(dim, geo_dim=geo_dim, boundary=bool(spec.get('boundary')), arity=spec.get('arity', 2), spacetime=bool(spec.get('spacetime')))
@@ -35,6 +38,8 @@ def build(spec):
     ns['x'] = V.Geo
     ns['gw'] = V.GaussWeight if 'gw' in spec['expr'] else None
     e = eval(spec['expr'], ns)
+    if not add:
+        return V, e
     V.add(e)
     return V
 
@@ -82,6 +87,9 @@ BASE = [
     {'dim': 2, 'expr': 'tan(f)*log(2.0+g*g)*u*v*dx', 'inputs': [['f', [], False, False], ['g', [], True, False]]},
     {'dim': 3, 'expr': 'inner(dot(K, grad(u)), grad(v))*dx', 'inputs': [['K', [3, 3], True, False]]},
     {'dim': 2, 'expr': 'f*u*v*dx', 'inputs': [['f', [], False, True]]},
+    # both orientations of non-commutative operations on the same operands (CSE must not merge them)
+    {'dim': 2, 'expr': '((f*f*u - g*g*v)*f + (g*g*v - f*f*u)*g)*dx', 'inputs': [['f', [], False, False], ['g', [], False, False]]},
+    {'dim': 2, 'expr': '((f*f+1.0)/(g*g+2.0)*u + (g*g+2.0)/(f*f+1.0)*v)*u*v*dx', 'inputs': [['f', [], False, False], ['g', [], True, False]]},
 ]
 
 
